@@ -197,7 +197,7 @@ theorem planState_prov (diff : Differ) (a b : Vsys) (hbg : b.groups = []) (hbs :
   unfold planState
   simp only
   generalize planFuel (sortVsys a) (sortVsys b) = fuel
-  generalize hnames : uniqNames ((sortVsys a).groups.map (·.name)) ((sortVsys b).groups.map (·.name)) = names
+  generalize hnames : groupNamesFor (sortVsys a) (sortVsys b) = names
   generalize hbr : ((sortVsys b).rules.zip (uniqNames (ruleNames (sortVsys a).rules)
     (ruleNames (sortVsys b).rules))).map (fun (r, n) => { r with name := n }) = bRules
   have hobjs := diffRules_objs diff fuel
